@@ -1296,7 +1296,11 @@ void rtosc::path_search(const rtosc::Ports& root,
         auto is_less = [](const val_on_2 &p1, const val_on_2 &p2) -> bool {
             return strcmp(p1[0].s, p2[0].s) < 0;
         };
-        std::size_t n_paths_found = pos >> 1;
+        // the query strings (if any) stay in front of the sorted results
+        const std::size_t first = reply_with_query ? 2 : 0;
+        types += first;
+        args  += first;
+        std::size_t n_paths_found = (pos - first) >> 1;
         std::sort((ptr_on_2)args, ((ptr_on_2)(args))+n_paths_found, is_less);
 
         if (opts == path_search_opts::sorted_and_unique_prefix)
